@@ -293,3 +293,44 @@ Proof.
   destruct (inv_entry _ _ HI s g Hg) as [_ E2]. destruct (E2 k m Hin2) as [kd [A B]].
   eapply input_event_sess_open; eassumption.
 Qed.
+
+(* ---- any number of such events -------------------------------------------------------------------------------------- *)
+Lemma run_app_fst : forall fx cf h1 h2 st,
+  fst (run fx cf st (h1 ++ h2)) = fst (run fx cf (fst (run fx cf st h1)) h2).
+Proof.
+  intros fx cf h1. induction h1 as [|e t IH]; intros h2 st; simpl; [reflexivity|].
+  destruct (step fx cf st e) as [[st1 r] ns]. specialize (IH h2 st1).
+  destruct (run fx cf st1 (t ++ h2)) as [a b]. destruct (run fx cf st1 t) as [c d]. simpl in *. exact IH.
+Qed.
+
+(* every event of es is, when it happens, about an input session other than the accepted input of stream s *)
+Fixpoint all_foreign (cf : config) (st : state) (s : N) (es : list event) : Prop :=
+  match es with
+  | [] => True
+  | e :: t =>
+    (exists x g, input_event st e = true /\ subject_of e = Some x /\ get_group st s = Some g /\
+                 has_in g = true /\ occupies x s g = false) /\
+    all_foreign cf (fst (fst (step fixed_tree cf st e))) s t
+  end.
+
+(* The accepted input after the history h ++ es is the accepted input after h - same slots, pipeline,
+   Group object, subscribers and media receivers - whatever foreign input events es consists of:
+   the history without those events. *)
+Theorem foreign_events_delivery : forall cf es h s g,
+  let st := fst (run fixed_tree cf init_state h) in
+  get_group st s = Some g -> all_foreign cf st s es ->
+  let st' := fst (run fixed_tree cf init_state (h ++ es)) in
+  exists g', get_group st' s = Some g' /\ sim g g' /\ g_subs g' = g_subs g /\ receivers st' g' = receivers st g.
+Proof.
+  intros cf es. induction es as [|e t IH]; intros h s g st Hg Hall st'.
+  - subst st'. rewrite app_nil_r. exists g. split; [assumption|]. split; [apply sim_refl|]. split; reflexivity.
+  - simpl in Hall. destruct Hall as [[x [g0 [A [B [C [D E]]]]]] Hrest].
+    rewrite Hg in C. inversion C; subst g0.
+    destruct (input_event_delivery cf h e x s g A B Hg D E) as [g1 [G1 [G2 [G3 G4]]]].
+    assert (Hst1 : fst (run fixed_tree cf init_state (h ++ [e])) = fst (fst (step fixed_tree cf st e))).
+    { rewrite run_app_fst. fold st. simpl. destruct (step fixed_tree cf st e) as [[a b] c]. reflexivity. }
+    specialize (IH (h ++ [e]) s g1). cbv zeta in IH. rewrite Hst1 in IH. specialize (IH G1 Hrest).
+    destruct IH as [g2 [I1 [I2 [I3 I4]]]].
+    subst st'. replace (h ++ e :: t) with ((h ++ [e]) ++ t) by (rewrite <- app_assoc; reflexivity).
+    exists g2. split; [assumption|]. split; [eapply sim_trans; eassumption|]. split; [congruence|]. rewrite I4. exact G4.
+Qed.
